@@ -80,6 +80,13 @@ func RootTypeSpec(s TypeSpec) TypeSpec {
 			return t.root
 		}
 		s = t.Target
+		if ref, ok := s.(typeSpecReference); ok && t.linkScope != nil {
+			// The typedef is still being linked (it was reached through a
+			// cycle), so its target is still only a name.
+			if target, err := ref.Link(t.linkScope); err == nil {
+				s = target
+			}
+		}
 	}
 	return nil
 }
